@@ -1,6 +1,6 @@
 PROP = dict(
     gen=[],
-    proof_files=["Properties/C10.v", "Proofs/CombinerProofs.v", "Spec/CombinerSpec.v", "Proofs/CombinerSetProofs.v", "Spec/CombinerSetSpec.v", "Proofs/CombinerOnce.v", "Proofs/ComposeCombine.v"],
+    proof_files=["Properties/C10.v", "Proofs/CombinerProofs.v", "Proofs/CombinerRound5.v", "Spec/CombinerSpec.v", "Proofs/CombinerSetProofs.v", "Spec/CombinerSetSpec.v", "Proofs/CombinerOnce.v", "Proofs/ComposeCombine.v"],
     model_files=["Model/Combiner.v", "Model/CombinerRun.v", "Model/ComposeBridge.v", "Model/ComposeCombineRun.v"],
     trusted=["Go value -> Gallina term printers harness/pdu_common.go (coqAddr, coqKVs8) and harness/c10.go (coqSeg, coqTrace)",
              "the oracle in harness/c10.go (judge) is the direct statement of C10 on an observed callback trace"],
